@@ -309,6 +309,17 @@ func (w *vkWorld) vkJudge(q vkQuery, r h_resolver.Reply, noAnchors bool) vkVerdi
 			}
 		}
 	}
+	// The answer chain must answer the QUESTION: an RRset owned by the query name (or by an alias target on the
+	// chain) whose type is neither the question's nor an alias type answers another question. Genuine and
+	// correctly signed as it may be, it is not what the signer published for this question.
+	for _, s := range sets {
+		if s.rtype == q.Type || s.rtype == dns.TypeCNAME || s.rtype == dns.TypeDNAME {
+			continue
+		}
+		if _, st, _ := w.u.AuthRRset(s.owner, s.rtype); st == zonemodel.Secure {
+			return bad("answers-another-question", "the answer to a %s question carries the %s RRset of %s (a name under an unbroken signed chain) as its answer", dns.TypeToString[q.Type], dns.TypeToString[s.rtype], s.owner)
+		}
+	}
 	t := w.u.Truth(q.Name, q.Type)
 	// relation of the reply to the model's answer chain
 	got := map[string]string{}
@@ -345,6 +356,49 @@ func (w *vkWorld) vkJudge(q vkQuery, r h_resolver.Reply, noAnchors bool) vkVerdi
 	if t.Status == zonemodel.Secure && !full && !prefix {
 		return bad("altered-data", "name is secure in the model but the reply (%s, %d answer RRsets) is neither SERVFAIL nor the model's truth (%s/%s, %d RRsets)",
 			rc, len(sets), dns.RcodeToString[t.Rcode], t.Terminal, len(t.Answer))
+	}
+	if t.Status != zonemodel.Secure && !full && (m.Rcode == dns.RcodeNameError || m.Rcode == dns.RcodeSuccess) {
+		// The model's chain ends outside the signed tree, but its first steps may lie inside it. A reply that stops
+		// short and DENIES the next step (NXDOMAIN after the part it carries; an empty NOERROR for the query name
+		// itself) denies an RRset that a secure zone publishes.
+		k := 0
+		for k < len(t.Answer) && got[fmt.Sprintf("%s|%d", t.Answer[k].Owner, t.Answer[k].Type)] == zonemodel.SetKey(t.Answer[k].RRs) {
+			k++
+		}
+		if k == len(got) && k < len(t.Answer) && t.Answer[k].Secure && (m.Rcode == dns.RcodeNameError || k == 0) {
+			return bad("altered-data", "the reply (%s, %d answer RRsets) denies %s/%s, which its secure zone publishes (the model's chain turns insecure only later)",
+				rc, len(sets), t.Answer[k].Owner, dns.TypeToString[t.Answer[k].Type])
+		}
+	}
+	// Does the reply present a denial? NXDOMAIN does, a NOERROR without any answer does; a NOERROR that ends in an
+	// alias does only when its authority section carries denial records (without them it asserts just the alias
+	// RRsets it carries — sdns answers a DS question at an alias owner that way, untampered).
+	presentsDenial := m.Rcode == dns.RcodeNameError || len(t.Answer) == 0
+	for _, s := range vkGroup(m.Ns) {
+		if s.rtype == dns.TypeSOA || s.rtype == dns.TypeNSEC || s.rtype == dns.TypeNSEC3 {
+			presentsDenial = true
+		}
+	}
+	if full && presentsDenial && q.F.DO && t.Status == zonemodel.Secure && (t.Terminal == "nodata" || t.Terminal == "nxdomain") {
+		// A denial is "what the signer published" only with its proof: toward a DO client the authority section
+		// carries the zone's SOA and NSEC/NSEC3 records, and they are the zone's own.
+		var soa, denial bool
+		for _, s := range vkGroup(m.Ns) {
+			switch {
+			case s.rtype == dns.TypeSOA && s.owner == zonemodel.Canon(t.Zone):
+				soa = true
+			case s.rtype == dns.TypeNSEC || s.rtype == dns.TypeNSEC3:
+				denial = true
+			default:
+				continue
+			}
+			if !w.vkAllAuthentic([]vkSet{s}) {
+				return bad("denial-with-forged-proof", "the %s/%s reply's authority section carries %s/%s that is not what its (secure) zone publishes: %s", rc, t.Terminal, s.owner, dns.TypeToString[s.rtype], vkSecStr(m.Ns))
+			}
+		}
+		if !soa || !denial {
+			return bad("denial-without-proof", "the reply denies (%s/%s) a name under an unbroken signed chain toward a DO client without the proof (SOA of %s present=%v, NSEC/NSEC3 present=%v): authority = {%s}", rc, t.Terminal, t.Zone, soa, denial, vkSecStr(m.Ns))
+		}
 	}
 	// Does the reply itself assert the terminal step? A NOERROR reply that ends in an alias without
 	// data for the target asserts only the alias RRsets it carries (AD then covers exactly those).
@@ -494,14 +548,23 @@ func (w *vkWorld) vkRunOnce(s vkScenario, history bool) vkRunResult {
 	}
 	for _, lq := range res.firstPath {
 		for i, tm := range s.Tampers {
-			if lq.Scripted && lq.Changed && lq.Key() == (authsim.Key{Server: tm.Key.Server, QName: zonemodel.Canon(tm.Key.QName), QType: tm.Key.QType, Occ: tm.Key.Occ}) {
+			want := authsim.Key{Server: tm.Key.Server, QName: zonemodel.Canon(tm.Key.QName), QType: tm.Key.QType, Occ: tm.Key.Occ}
+			if tm.Key.Occ < 0 {
+				want.Occ = lq.Occ // scripted for every occurrence
+			}
+			if lq.Scripted && lq.Changed && lq.Key() == want {
 				res.fired[i] = true
 			}
 		}
 	}
 	if ok && history {
 		if ask("same query again", s.Q) {
-			for i, rq := range w.vkRelated(s.Q) {
+			more := w.vkRelated(s.Q)
+			if !s.Q.F.DO && !s.Q.F.CD {
+				// what a client without DO was told cannot be judged for its proof: ask the same question with DO=1
+				more = append([]vkQuery{{Name: s.Q.Name, Type: s.Q.Type, F: h_resolver.Flags{DO: true}}}, more...)
+			}
+			for i, rq := range more {
 				if !ask(fmt.Sprintf("related query %d (%s)", i+1, rq), rq) {
 					break
 				}
@@ -536,10 +599,11 @@ func (w *vkWorld) vkReport(s vkScenario, r vkRunResult) {
 	c := w.c
 	// shortest counterexample first: a violating pair is reduced to one of its tampers when that
 	// tamper alone produces the same class of violation
+	// (a family of n tampers is reduced one tamper at a time)
 	if len(s.Tampers) > 1 {
 		for i := range s.Tampers {
 			s1 := s
-			s1.Tampers = []vkTamper{s.Tampers[i]}
+			s1.Tampers = append(append([]vkTamper{}, s.Tampers[:i]...), s.Tampers[i+1:]...)
 			if r1 := w.vkRun(s1, true); r1.verdict.Viol != "" && r1.verdict.Class == r.verdict.Class {
 				w.vkReport(s1, r1)
 				return
@@ -635,6 +699,11 @@ func TestVerifC01Tamper(t *testing.T) {
 		}
 		if rot == 0 {
 			c.Note("pipeline handlers: " + strings.Join(w.pl.HandlerNames(), ","))
+			var kn []string
+			for _, k := range kinds {
+				kn = append(kn, k.Name)
+			}
+			c.Note(fmt.Sprintf("%d single-tamper kinds enumerated (VERIF_C01_NEWKINDS on=%v): %s", len(kn), vkNewKindsOn, strings.Join(kn, " ")))
 		}
 		for _, nm := range vkNames {
 			if nm.Tier > tier {
@@ -706,6 +775,7 @@ func (w *vkWorld) vkQueryCases(rot int, q vkQuery, kinds []vkKind) {
 	}
 	if !q.F.CD {
 		w.vkKeyPairs(rot, q, r0.firstPath)
+		w.vkRunFamily("downgrade-by-attacker-nods-proof", w.vkNoDSFamily(rot, q, r0.firstPath), 3, q)
 	}
 	if q.F.CD && c.Quick() {
 		// toward a CD client the property only withholds AD: the quick tier runs a representative subset
@@ -739,6 +809,7 @@ func (w *vkWorld) vkQueryCases(rot int, q vkQuery, kinds []vkKind) {
 			}
 			if r.fired[0] {
 				c.DistinctStr("nontrivial", fmt.Sprintf("%d|%s|%d|%s", rot, q, pos, k.Name))
+				c.Add("fired:"+k.Name, 1)
 			} else {
 				c.Add("tamper_not_reached", 1)
 				c.Note(fmt.Sprintf("tamper not reached: %s elapsed=%v outcomes=%v path=[%s]", s, r.elapsed, r.outcomes, vkPathStr(r.firstPath)))
